@@ -79,6 +79,8 @@ type Contract struct {
 	Iter         *IterSpec           // the callee calls a callback over a ghost sequence
 	Gates        []Gate              // extra conditions asserted at every call of a command handler
 	AtCall       []AtCall            // extra obligations at the call sites of a callee inside this function
+	EntryAssume  []Clause            // system state invariants assumed on entry (listed), not part of the precondition callers must establish
+	AtReturn     []Clause            // obligations at every return, in the function's own scope (locals allowed); not seen by callers
 	Rely         []Clause            // facts about shared state that hold after any interference by other threads (old() = before it)
 	InterfGhosts []string            // ghost variables other threads may change
 	AfterLock    []Clause            // monitor invariants assumed right after a lock acquisition inside this function (listed as assumptions)
@@ -109,8 +111,9 @@ type Gate struct {
 }
 
 type GhostVar struct {
-	Name string
-	Sort Sort
+	Name    string
+	Sort    Sort
+	Scratch bool // `ghost scratch`: private to each function activation (set-at-call snapshots); never part of a frame
 }
 
 type Specs struct {
@@ -389,8 +392,9 @@ func (sp *Specs) loadSpecFile(path, pkgPrefix string, assumed bool) error {
 		}
 		switch word {
 		case "ghost":
-			if strings.HasPrefix(rest, "var ") {
-				f := strings.Fields(rest[4:])
+			if strings.HasPrefix(rest, "var ") || strings.HasPrefix(rest, "scratch ") {
+				scratch := strings.HasPrefix(rest, "scratch ")
+				f := strings.Fields(rest[strings.Index(rest, " ")+1:])
 				if len(f) != 2 {
 					return fmt.Errorf("%s:%d: ghost var NAME SORT", path, l.ln)
 				}
@@ -399,7 +403,7 @@ func (sp *Specs) loadSpecFile(path, pkgPrefix string, assumed bool) error {
 					return fmt.Errorf("%s:%d: %v", path, l.ln, err)
 				}
 				if _, ok := sp.GhostVars[f[0]]; !ok {
-					sp.GhostVars[f[0]] = &GhostVar{f[0], so}
+					sp.GhostVars[f[0]] = &GhostVar{Name: f[0], Sort: so, Scratch: scratch}
 					sp.GVOrder = append(sp.GVOrder, f[0])
 				}
 				continue
@@ -778,6 +782,24 @@ func (sp *Specs) loadSpecFile(path, pkgPrefix string, assumed bool) error {
 				ac.Callee = ac.Callee[:i]
 			}
 			cur.AtCall = append(cur.AtCall, ac)
+		case "entry-assume":
+			if cur == nil {
+				return fmt.Errorf("%s:%d: clause outside func", path, l.ln)
+			}
+			cl, err := mkClause(rest, l.ln)
+			if err != nil {
+				return err
+			}
+			cur.EntryAssume = append(cur.EntryAssume, cl)
+		case "at-return":
+			if cur == nil {
+				return fmt.Errorf("%s:%d: clause outside func", path, l.ln)
+			}
+			cl, err := mkClause(rest, l.ln)
+			if err != nil {
+				return err
+			}
+			cur.AtReturn = append(cur.AtReturn, cl)
 		case "rely":
 			if cur == nil {
 				return fmt.Errorf("%s:%d: clause outside func", path, l.ln)
